@@ -157,7 +157,7 @@ def rewrite_segment(items):
             rhs = items[i + 1:]
             lhs_t = "".join(render_raw(x) for x in lhs_items).strip()
             lead = re.match(r'\s*', "".join(render_raw(x) for x in lhs_items)).group(0)
-            out.append(f"{lead}core::ops::{ASSIGN[v]}(&mut {lhs_t}, {rewrite_segment(rhs).strip()})")
+            out.append(f"{lead}{{ let rhs_ = {rewrite_segment(rhs).strip()}; core::ops::{ASSIGN[v]}(&mut {lhs_t}, rhs_) }}")
             return "".join(out)
         else:
             run.append(items[i])
